@@ -8,6 +8,9 @@ WT=/tmp/mt-$P-$$
 git -C /repo worktree add -q --detach $WT HEAD || exit 2
 mkdir -p $WT/vault
 cp -r $SRC/demo/. $WT/ 2>/dev/null
+# a demo that brings its own export shim under the tag `verif` would clash with the framework's hooks
+# (same tag, same identifiers): DEMOTAG=seeddemo re-tags the demo's files so it runs with -tags seeddemo
+if [ -n "$DEMOTAG" ]; then ( cd $SRC/demo && find . -name '*.go' ) | while read f; do sed -i "s/go:build verif/go:build $DEMOTAG/; s/+build verif/+build $DEMOTAG/" $WT/$f; done; fi
 echo "== demo on clean tree"; ( cd $WT && sh -c "$DEMO" >/tmp/mt-$$-clean.log 2>&1; echo "exit=$?"; tail -3 /tmp/mt-$$-clean.log )
 ( cd $WT && git apply $SRC/patch.diff ) || { echo "PATCH DOES NOT APPLY"; git -C /repo worktree remove --force $WT; exit 2; }
 echo "== build + suite with change"; ( cd $WT && go build ./... && go test -vet=off -count=1 ./group/... ./share ./share/vss/... ./sign/... 2>&1 | grep -v "^ok\|no test files" | head; echo "suite-exit=$?" )
